@@ -260,7 +260,9 @@ theorem step_approvals (C : Crypto) (w : World) (op : Op) (key : Bytes) :
               · exact Or.inr (Or.inl e)
               · exact Or.inr (Or.inr ⟨p.src, p.desc.to, p.desc.func, tid, chain,
                   Or.inr ⟨id, p, rfl, hfp, rfl, rfl, rfl⟩, hk ▸ hk1, e⟩)
-            · exact Or.inl rfl
+            · split
+              · exact hcore hi
+              · exact Or.inl rfl
   | callback id =>
     -- no callback writes an approval: all of them stay within `ApprRel` for an author that is
     -- not available here, so use the unchanged-or-cleared part only
